@@ -3,8 +3,11 @@ CONSTANTS
   Clients = {"c1", "c2"}
   Ids = {"s1", "s2"}
   MaxCalls = 3
-  Locked = FALSE
+  MapsLocked = TRUE
+  SessLocked = FALSE
+  OldDelete = FALSE
   StepGuard = TRUE
   NilGuard = TRUE
+  WithClose = TRUE
   defaultInitValue = 0
-INVARIANTS NoConflict_state
+INVARIANTS NoConflict
